@@ -23,7 +23,10 @@ the process dies holding the lock — a stale lock arises dynamically), rogue (c
 holding, swallowing the documented exception, then `once`), daemon (the FilesystemLock object is
 constructed under a parent pid that then exits; the forked child — another, live pid — runs `once`
 on the inherited object), forkrogue (child forked from a live participant after that one built its
-lock object: `rogue` on the inherited object).  Initial states: no lock / stale lock of
+lock object: `rogue` on the inherited object), holdfork + forkchild/forkchild2 (a process takes
+the lock and forks WHILE HOLDING it; the child — another live pid with a copy of the parent's object,
+locked == True — calls `unlock()`, whose exception is not judged, only its effect on the link, and
+optionally competes afterwards, while the parent keeps holding and later releases).  Initial states: no lock / stale lock of
 a dead pid / lock held by a live non-participant.
 
 Oracle: (1) the number of live processes between a True return of `lock()` and the completion of
@@ -70,7 +73,8 @@ ASSUMPTIONS = [
 ]
 SHARDS = {"quick": 4, "thorough": 16}
 FLOORS = {"states": 2000, "schedules_completed": 200, "acquisitions": 1000, "holder_unlocks": 500, "stale_breaks": 100,
-          "configs": 20, "exclusion_checks": 1000, "single_process_checks": 3}
+          "configs": 20, "exclusion_checks": 1000, "single_process_checks": 3,
+          "forks_while_holding": 100, "inherited_unlock_calls": 100}
 READY = True
 
 PIDS = (101, 102, 103, 104)
@@ -219,6 +223,7 @@ class World:
             self.alive.add(FOREIGN)
         self.curpid = list(PIDS[:n])  # what os.getpid() answers for each process right now (fork changes it)
         self.holders = set()
+        self.forked = {}           # parent process -> attributes of its lock object at the moment it forked
         self.flock = None          # process holding the breaker flock
         self.victims = {}          # proc -> trace index: live holders whose link a stale-breaker removed
         self.acquired_ever = [False] * n
@@ -239,6 +244,7 @@ class World:
         w.alive = set(self.alive)
         w.curpid = list(self.curpid)
         w.holders = set(self.holders)
+        w.forked = dict(self.forked)
         w.flock = self.flock
         w.victims = dict(self.victims)
         w.acquired_ever = list(self.acquired_ever)
@@ -346,6 +352,10 @@ class World:
             self.holders.discard(i)
             if self.flock == i:
                 self.flock = None
+        elif op == "fork":
+            self.forked[i] = args[0]
+        elif op == "await-fork":
+            res = self.forked.get(args[0])
         elif op == "flock":
             if args[0] == "un":
                 if self.flock == i:
@@ -410,7 +420,9 @@ class World:
     # ---- scheduler side --------------------------------------------------------------------------------
     def runnable(self):
         return [i for i in range(self.n) if self.status[i] == "parked"
-                and not (self.pending[i] == ("flock", ("ex",)) and self.flock not in (None, i))]
+                and not (self.pending[i] == ("flock", ("ex",)) and self.flock not in (None, i))
+                and not (self.pending[i][0] == "await-fork" and self.pending[i][1][0] not in self.forked
+                         and self.status[self.pending[i][1][0]] != "done")]
 
     def step(self, i):
         assert self.status[i] == "parked", (i, self.status)
@@ -419,7 +431,7 @@ class World:
         self._run(i, 1)
 
     def state(self):
-        return (self.table.get(NAME), self.flock, tuple(sorted(self.alive)), tuple(sorted(self.holders)), tuple(self.local),
+        return (self.table.get(NAME), self.flock, tuple(sorted(self.forked)), tuple(sorted(self.alive)), tuple(sorted(self.holders)), tuple(self.local),
                 tuple(self.acquired_ever), tuple(sorted(self.victims)))
 
     # ---- known-finding classifier ----------------------------------------------------------------------
@@ -521,7 +533,56 @@ def p_forkrogue(w, i):
     _cycle(w, i, l)
 
 
-PROGRAMS = {"daemon": p_daemon, "forkrogue": p_forkrogue, "once": p_once, "retry": p_retry, "twice": p_twice, "die": p_die, "rogue": p_rogue}
+def p_holdfork(w, i):
+    """Takes the lock, FORKS WHILE HOLDING it (the child is another simulated process running
+    `forkchild`), keeps holding for a while and releases."""
+    l = w.FilesystemLock(NAME)
+    if _lock(w, i, l):
+        w.acquired(i, l)
+        w.seam("fork", (tuple(sorted((k, v) for k, v in vars(l).items() if _simple(v) is not Ellipsis)),))
+        w.api[i] = "unlock"
+        exc = None
+        try:
+            l.unlock()
+        except Exception as e:
+            exc = e
+        w.api[i] = None
+        w.released(i, exc)
+
+
+def _forkchild(w, i, again):
+    """The child of the first `holdfork` process, born at its fork: another live pid with a copy of
+    the parent's lock object (locked == True).  It calls unlock() — what that raises is not judged,
+    only its effect on the link — and optionally competes for the lock afterwards.  It is never
+    born if the parent finishes without having acquired."""
+    parent = w.cfg["programs"].index("holdfork")
+    snap = w.seam("await-fork", (parent,))
+    if snap is None:
+        return
+    w.curpid[i] = PIDS[parent]
+    l = w.FilesystemLock(NAME)
+    vars(l).update(dict(snap))
+    w.curpid[i] = PIDS[i]
+    w.api[i] = "unlock"
+    try:
+        l.unlock()
+        w.event(i, "inherited-unlock-returned")
+    except Exception as e:
+        w.event(i, "inherited-unlock-refused", exception=type(e).__name__)
+    w.api[i] = None
+    if again:
+        _cycle(w, i, l)
+
+
+def p_forkchild(w, i):
+    _forkchild(w, i, False)
+
+
+def p_forkchild2(w, i):
+    _forkchild(w, i, True)
+
+
+PROGRAMS = {"holdfork": p_holdfork, "forkchild": p_forkchild, "forkchild2": p_forkchild2, "daemon": p_daemon, "forkrogue": p_forkrogue, "once": p_once, "retry": p_retry, "twice": p_twice, "die": p_die, "rogue": p_rogue}
 
 
 # ---- exploration -----------------------------------------------------------------------------------
@@ -539,6 +600,11 @@ def report(ctx, w, mark):
             ctx.count("stale_breaks")
         elif e.get("op") == "die":
             ctx.count("deaths_while_holding")
+        elif e.get("op") == "fork":
+            ctx.count("forks_while_holding")
+        elif ev in ("inherited-unlock-refused", "inherited-unlock-returned"):
+            ctx.count("inherited_unlock_calls")
+            ctx.count(ev.replace("-", "_"))
     for key, what, extra in w.violations:
         k = w.classify(key, extra)
         wit = {"config": w.cfg, "schedule": list(w.schedule), "trace": w.trace[-60:], "pids": list(PIDS[:w.n]), "dead_pid": DEAD, "foreign_pid": FOREIGN}
@@ -649,6 +715,14 @@ def configs(tier):
         for p3 in _multisets(pool, 3):
             if any(p in forked for p in p3):
                 out.append({"programs": p3, "initial": initial})
+        # fork AFTER a successful lock(): parent keeps holding, the child uses the inherited object
+        for child in ("forkchild", "forkchild2"):
+            out.append({"programs": ["holdfork", child], "initial": initial})
+            for third in ["once", "retry", "die", "rogue", "daemon", "forkchild", "forkchild2"] + ([] if tier == "quick" else ["twice", "forkrogue"]):
+                out.append({"programs": ["holdfork", child, third], "initial": initial})
+            if tier != "quick":
+                for p2 in _multisets(["once", "die", "retry"], 2):
+                    out.append({"programs": ["holdfork", child] + p2, "initial": initial})
         if tier != "quick":
             for p4 in _multisets(["once", "die", "rogue", "retry"], 4):
                 out.append({"programs": p4, "initial": initial})
